@@ -216,7 +216,7 @@ def slice_list(I, sl, lo, hi):
     hi_t = sl.length if hi is None else num_term(hi)
     # Python clamps; the supported case is 0 <= lo <= len and 0 <= hi <= len (checked on the path)
     I.path.require(z3.And(lo_t >= 0, lo_t <= sl.length, hi_t >= 0, hi_t <= sl.length), "builtin:symbolic-slice-within-range")
-    n = z3.simplify(z3.If(hi_t >= lo_t, hi_t - lo_t, 0))
+    n = z3.simplify(hi_t - lo_t) if I.path.branch(hi_t >= lo_t, "slice-range-not-empty") else z3.IntVal(0)
     return SList(n, lambda t: sl.elem(z3.simplify(t + lo_t)), f"{sl.tag}[{lo_t}:{hi_t}]")
 
 
@@ -231,7 +231,7 @@ def concat(I, a, b):
 
 
 def b_enumerate(I, sl):
-    return SList(sl.length, lambda t: (SNum(t, True) if not z3.is_int_value(t) else t.as_long(), sl.elem(t)), f"enumerate({sl.tag})", family=None)
+    return SList(sl.length, lambda t: (SNum(t, True) if not z3.is_int_value(t) else t.as_long(), sl.elem(t)), f"enumerate({sl.tag})", family=sl.family)
 
 
 def b_zip(I, lists):
